@@ -488,12 +488,14 @@ func (tee *c19Tee) Next() *gtfs.Realtime {
 
 // c19Case is a generated base directory.
 type c19Case struct {
-	good    [][]byte
-	extra   [][]byte
-	entries []dirEntry // unsorted, as generated
+	dirName   string // name of the directory under test ("" = "d")
+	decoyName string
+	good      [][]byte
+	extra     [][]byte
+	entries   []dirEntry // unsorted, as generated
 }
 
-func genC19Case(t *sim.T) *c19Case {
+func genC19Case(t *sim.T, tier string) *c19Case {
 	cfg := gen.DrawWorldCfg(t)
 	cfg.Nyct = !t.Chance(1, 6)
 	cfg.ExplicitTime = true
@@ -502,8 +504,24 @@ func genC19Case(t *sim.T) *c19Case {
 	large := t.Chance(1, 12)
 	if large {
 		nGood = t.Range(9, 36) // large directories: batching / growth thresholds in the listing code
+		if t.Chance(1, 8) {
+			// very large directories (listing in batches of 100, 256, 1024, ...)
+			sizes, weights := []int{130, 300, 600, 1100, 2100, 4200}, []int{4, 3, 3, 3, 0, 0}
+			if tier == "thorough" {
+				weights = []int{4, 3, 3, 3, 2, 1}
+			}
+			nGood = sizes[t.Weighted(weights...)] + t.Choose(40)
+			t.Probe("huge-directory")
+		}
 	}
 	c := &c19Case{}
+	if t.Chance(1, 5) {
+		// the directory's own name is odd too (pattern metacharacters, spaces, non-ASCII)
+		k := t.Choose(8)
+		c.dirName = []string{"d[1]", "line[A", "a*b", "q?x", "back\\slash", "sp ace", "ü-dir", "{a,b}"}[k]
+		c.decoyName = []string{"d1", "lineA", "aXb", "qYx", "backslash", "space", "u-dir", "a"}[k]
+		t.Probe("odd-directory-name")
+	}
 	for i := 0; i < nGood+2; i++ {
 		b := gen.MarshalFeed(w.Tick())
 		if i < nGood {
@@ -600,12 +618,24 @@ func bloatFeed(b []byte, size int) []byte {
 func runC19Once(t *sim.T, c *c19Case, plan c19Plan, extraCalls int, log bool) *sim.Violation {
 	dirSeq++
 	root := filepath.Join(ScratchBase(), fmt.Sprintf("r%d", dirSeq))
-	d := &dirSim{t: t, root: root, dir: filepath.Join(root, "d"), cache: map[uint64]string{}}
+	dirName := "d"
+	if c.dirName != "" {
+		dirName = c.dirName
+	}
+	d := &dirSim{t: t, root: root, dir: filepath.Join(root, dirName), cache: map[uint64]string{}}
 	if err := os.MkdirAll(d.dir, 0o755); err != nil {
 		panic("harness: " + err.Error())
 	}
 	os.MkdirAll(filepath.Join(root, "x"), 0o755)
 	defer os.RemoveAll(root)
+	// a sibling directory whose name is what the directory's name would match if it were (wrongly)
+	// interpreted as a pattern; it holds a decoy feed that must never be yielded
+	if c.decoyName != "" && c.decoyName != dirName {
+		dp := filepath.Join(root, c.decoyName)
+		if os.MkdirAll(dp, 0o755) == nil {
+			os.WriteFile(filepath.Join(dp, "000-decoy"), c.extra[0], 0o644)
+		}
+	}
 
 	for i := range c.entries {
 		e := c.entries[i] // copy
@@ -800,7 +830,7 @@ func runC19CLI(t *sim.T, c *c19Case) *sim.Violation {
 }
 
 func runC19(t *sim.T, tier string) *sim.Violation {
-	c := genC19Case(t)
+	c := genC19Case(t, tier)
 	if (tier == "thorough" && t.Chance(1, 40)) || (tier != "thorough" && t.Chance(1, 150)) {
 		for _, e := range c.entries {
 			t.Logf("entry %q: %s (%d bytes)", e.name, entKindNames[e.kind], len(e.data))
